@@ -28,6 +28,7 @@ pub fn exec_oracle(kind: &str, fields: &[&str]) -> String {
         "S_C08N" => oracle_c08n(fields),
         "S_C08O" => oracle_c08o(fields),
         "S_C08D" => oracle_c08d(fields),
+        "S_C06" => oracle_c06(fields),
         "S_C09" => oracle_c09(fields),
         "S_C13" => oracle_c13(fields),
         "S_C14" => oracle_c14(fields),
@@ -2788,6 +2789,252 @@ fn oracle_c14(fields: &[&str]) -> String {
                             }
                             continue;
                         }
+                    }
+                }
+            }
+        }
+    }
+    "oracle pass".to_string()
+}
+
+/// the ellipsoid's own geometry, through the public API
+fn oracle_c06(fields: &[&str]) -> String {
+    let kind = fields[0];
+    if kind == "count" {
+        let n: usize = fields[1].parse().unwrap_or(0);
+        return if n == 47 { "oracle pass".to_string() } else { format!("oracle FAIL the built-in ellipsoid table has {n} rows, 47 are documented") };
+    }
+    let Ok(e) = Ellipsoid::named(fields[1]) else {
+        return format!("oracle FAIL ellipsoid {} cannot be instantiated", fields[1]);
+    };
+    let (a, f) = (e.semimajor_axis(), e.flattening());
+    let b = e.semiminor_axis();
+    let es = e.eccentricity_squared();
+    match kind {
+        "table" => {
+            let pa: f64 = fields[2].parse().unwrap_or(f64::NAN);
+            let prf: f64 = fields[3].parse().unwrap_or(f64::NAN);
+            if a.to_bits() != pa.to_bits() {
+                return format!("oracle FAIL {}: semi-major axis {a}, the table publishes {pa}", fields[1]);
+            }
+            let want_f = if prf != 0.0 { 1.0 / prf } else { 0.0 };
+            if f.to_bits() != want_f.to_bits() {
+                return format!("oracle FAIL {}: flattening {f}, the table publishes 1/{prf}", fields[1]);
+            }
+            let close = |x: f64, y: f64| (x - y).abs() <= 1e-13 * x.abs().max(y.abs()).max(1e-300);
+            let checks = [
+                ("b = a(1-f)", b, a * (1.0 - f)),
+                ("e^2 = f(2-f)", es, f * (2.0 - f)),
+                ("e^2 = 1 - b^2/a^2", es, 1.0 - b * b / (a * a)),
+                ("e = sqrt(e^2)", e.eccentricity(), es.sqrt()),
+                ("e'^2 = e^2/(1-e^2)", e.second_eccentricity_squared(), es / (1.0 - es)),
+                ("e'^2 = (a^2-b^2)/b^2", e.second_eccentricity_squared(), (a * a - b * b) / (b * b)),
+                ("n = (a-b)/(a+b)", e.third_flattening(), (a - b) / (a + b)),
+                ("f' = (a-b)/b", e.second_flattening(), (a - b) / b),
+                ("a/b", e.aspect_ratio(), a / b),
+                ("E^2 = a^2 - b^2", e.linear_eccentricity().powi(2), a * a - b * b),
+                ("c = a^2/b", e.polar_radius_of_curvature(), a * a / b),
+                ("M(90) = N(90) = c", e.meridian_radius_of_curvature(std::f64::consts::FRAC_PI_2), e.prime_vertical_radius_of_curvature(std::f64::consts::FRAC_PI_2)),
+                ("N(0) = a", e.prime_vertical_radius_of_curvature(0.0), a),
+                ("M(0) = a(1-e^2)", e.meridian_radius_of_curvature(0.0), a * (1.0 - es)),
+                ("quadrant", e.meridian_quadrant(), e.meridian_latitude_to_distance(std::f64::consts::FRAC_PI_2)),
+            ];
+            for (what, x, y) in checks {
+                let tol_ok = if what.starts_with("e'^2 = (a") || what.starts_with("E^2") || what.starts_with("e^2 = 1") { (x - y).abs() <= 1e-9 * x.abs().max(y.abs()).max(1e-300) + 1e-16 } else { close(x, y) };
+                if !tol_ok {
+                    return format!("oracle FAIL {}: {what} does not hold ({x} vs {y})", fields[1]);
+                }
+            }
+        }
+        "cart" => {
+            for mut p in parse_data(fields[2]) {
+                p[2] *= a / 6378137.0; // heights in proportion to the size of the body
+                let c = e.cartesian(&p);
+                let g = e.geographic(&c);
+                // single step closed form: 1 cm
+                let d = ground_distance("geo3", &Coor4D([p[0], p[1], p[2], 0.]), &g) * (a / 6378137.0).min(1.0);
+                let polar = p[1].abs() > 1.5707;
+                if !(d < 1e-2) && !(polar && (g[1] - p[1]).abs() < 1e-9 && (g[2] - p[2]).abs() < 1e-2) {
+                    return format!("oracle FAIL {}: ({}, {}, {}) -> cartesian -> geographic comes back {:.3e} m away", fields[1], p[0], p[1], p[2], d);
+                }
+                // height zero: on the ellipsoid
+                let z = e.cartesian(&Coor4D([p[0], p[1], 0., 0.]));
+                let q = (z[0] * z[0] + z[1] * z[1]) / (a * a) + z[2] * z[2] / (b * b);
+                if !((q - 1.0).abs() < 1e-14) {
+                    return format!("oracle FAIL {}: the point of height zero at ({}, {}) misses the ellipsoid equation by {:e}", fields[1], p[0], p[1], q - 1.0);
+                }
+                // the cart operator: 1 micrometre
+                let def = format!("cart ellps={}", fields[1]);
+                if let (Ok((_, c2)), true) = (run_kind("default", &def, true, &[p]), true) {
+                    if let Ok((_, g2)) = run_kind("default", &def, false, &c2) {
+                        let d2 = ground_distance("geo3", &p, &g2[0]);
+                        if !(d2 < 1e-6) && !polar {
+                            return format!("oracle FAIL {def}: ({}, {}, {}) comes back {:.3e} m away", p[0], p[1], p[2], d2);
+                        }
+                    }
+                }
+            }
+        }
+        "lat" => {
+            let rect = e.coefficients_for_rectifying_latitude_computations();
+            let conf = e.coefficients_for_conformal_latitude_computations();
+            let auth = e.coefficients_for_authalic_latitude_computations();
+            type F<'a> = Box<dyn Fn(f64) -> f64 + 'a>;
+            let kinds: Vec<(&str, F, F)> = vec![
+                ("geocentric", Box::new(|x| e.latitude_geographic_to_geocentric(x)), Box::new(|x| e.latitude_geocentric_to_geographic(x))),
+                ("reduced", Box::new(|x| e.latitude_geographic_to_reduced(x)), Box::new(|x| e.latitude_reduced_to_geographic(x))),
+                ("conformal", Box::new(|x| e.latitude_geographic_to_conformal(x, &conf)), Box::new(|x| e.latitude_conformal_to_geographic(x, &conf))),
+                ("authalic", Box::new(|x| e.latitude_geographic_to_authalic(x, &auth)), Box::new(|x| e.latitude_authalic_to_geographic(x, &auth))),
+                ("rectifying", Box::new(|x| e.latitude_geographic_to_rectifying(x, &rect)), Box::new(|x| e.latitude_rectifying_to_geographic(x, &rect))),
+            ];
+            let ecc = es.sqrt();
+            let hp = std::f64::consts::FRAC_PI_2;
+            for (name, fw, bw) in &kinds {
+                if fw(0.0) != 0.0 {
+                    return format!("oracle FAIL {name} latitude of the equator is {} on {}", fw(0.0), fields[1]);
+                }
+                if *name != "rectifying" && !((fw(hp) - hp).abs() < 1e-12) {
+                    return format!("oracle FAIL {name} latitude of the pole is {} on {}", fw(hp), fields[1]);
+                }
+                for p in parse_data(fields[2]) {
+                    let (x, y) = (p[0].min(p[1]), p[0].max(p[1]));
+                    if !((fw(-x) + fw(x)).abs() < 1e-15) {
+                        return format!("oracle FAIL {name} latitude is not odd at {x} on {}", fields[1]);
+                    }
+                    if y - x > 1e-9 && !(fw(x) < fw(y)) {
+                        return format!("oracle FAIL {name} latitude is not increasing between {x} and {y} on {}", fields[1]);
+                    }
+                    if !((bw(fw(x)) - x).abs() < 1e-12) {
+                        return format!("oracle FAIL {name} latitude of {x} on {} comes back as {}", fields[1], bw(fw(x)));
+                    }
+                    let closed = match *name {
+                        "geocentric" => ((1.0 - es) * x.tan()).atan(),
+                        "reduced" => ((1.0 - f) * x.tan()).atan(),
+                        "conformal" => (x.tan().asinh() - ecc * (ecc * x.sin()).atanh()).sinh().atan(),
+                        "authalic" => {
+                            let q = |s: f64| if ecc < 1e-9 { 2.0 * s } else { (1.0 - es) * (s / (1.0 - es * s * s) - (0.5 / ecc) * ((1.0 - ecc * s) / (1.0 + ecc * s)).ln()) };
+                            (q(x.sin()) / q(1.0)).asin()
+                        }
+                        _ => continue,
+                    };
+                    if !((fw(x) - closed).abs() < 1e-11) {
+                        return format!("oracle FAIL {name} latitude of {x} on {}: {} but the closed form gives {closed}", fields[1], fw(x));
+                    }
+                }
+            }
+            // the latitude operator: both directions against the methods above
+            for (name, fw, bw) in &kinds {
+                let def = format!("latitude {name} ellps={}", fields[1]);
+                let pts: Vec<Coor4D> = parse_data(fields[2]).iter().map(|p| Coor4D([0.1, p[0].min(1.5), 0., 0.])).collect();
+                if let (Ok((_, f)), Ok((_, i))) = (run_kind("default", &def, true, &pts), run_kind("default", &def, false, &pts)) {
+                    for (k, p) in pts.iter().enumerate() {
+                        if !((f[k][1] - fw(p[1])).abs() < 1e-14) || !((i[k][1] - bw(p[1])).abs() < 1e-14) {
+                            return format!("oracle FAIL {def} at {}: operator gives {} / {}, the ellipsoid's methods {} / {}", p[1], f[k][1], i[k][1], fw(p[1]), bw(p[1]));
+                        }
+                    }
+                }
+            }
+            // isometric latitude and meridian arcs
+            for p in parse_data(fields[2]) {
+                let x = p[0].min(1.5);
+                let psi = e.latitude_geographic_to_isometric(x);
+                let closed = x.tan().asinh() - ecc * (ecc * x.sin()).atanh();
+                if !((psi - closed).abs() < 1e-12 * closed.abs().max(1.0)) || !((e.latitude_isometric_to_geographic(psi) - x).abs() < 1e-12) {
+                    return format!("oracle FAIL isometric latitude of {x} on {}: {psi} (closed form {closed}), back {}", fields[1], e.latitude_isometric_to_geographic(psi));
+                }
+                let d = e.meridian_latitude_to_distance(x);
+                if !((e.meridian_distance_to_latitude(d) - x).abs() < 1e-10) {
+                    return format!("oracle FAIL meridian distance {d} of latitude {x} on {} comes back as {}", fields[1], e.meridian_distance_to_latitude(d));
+                }
+            }
+        }
+        "rectpole" => {
+            // (kept apart from the other latitude checks: see the known finding)
+            let rect = e.coefficients_for_rectifying_latitude_computations();
+            let hp = std::f64::consts::FRAC_PI_2;
+            let got = e.latitude_geographic_to_rectifying(hp, &rect);
+            if !((got - hp).abs() < 1e-12) {
+                return format!("oracle FAIL rectifying latitude of the pole is {got} on {} (ratio {:.9})", fields[1], got / hp);
+            }
+        }
+        "geod" => {
+            for mut p in parse_data(fields[2]) {
+                p[3] *= a / 6378137.0; // distances in proportion to the size of the body
+                // direct then inverse: the same azimuth and distance
+                let from = Coor4D([p[0], p[1], 0., 0.]);
+                let dest = e.geodesic_fwd(&from, p[2], p[3]);
+                if dest[3] > 990.0 {
+                    continue;
+                }
+                let to = Coor4D([dest[0], dest[1], 0., 0.]);
+                let inv = e.geodesic_inv(&from, &to);
+                if inv[3] > 990.0 || inv[2].is_nan() {
+                    // the documented near-antipodal non-convergence zone
+                    if p[3] > 1.9e7 * a / 6.4e6 * 0.97 {
+                        continue;
+                    }
+                    return format!("oracle FAIL {}: the inverse problem does not converge for a line of {} m from ({}, {})", fields[1], p[3], p[0], p[1]);
+                }
+                if !((inv[2] - p[3]).abs() < 1e-4) {
+                    return format!("oracle FAIL {}: direct with distance {} from ({}, {}) azimuth {}, inverse finds {}", fields[1], p[3], p[0], p[1], p[2], inv[2]);
+                }
+                let da = (inv[0] - p[2]).rem_euclid(std::f64::consts::TAU);
+                if !(da.min(std::f64::consts::TAU - da) * p[3].min(a) < 1e-3) {
+                    return format!("oracle FAIL {}: direct with azimuth {} from ({}, {}) over {} m, inverse finds azimuth {}", fields[1], p[2], p[0], p[1], p[3], inv[0]);
+                }
+                // symmetry in the end points
+                let back = e.geodesic_inv(&to, &from);
+                if !((back[2] - inv[2]).abs() < 1e-5) {
+                    return format!("oracle FAIL {}: distance {} one way and {} the other", fields[1], inv[2], back[2]);
+                }
+                let db = (back[0] - inv[1] - std::f64::consts::PI).rem_euclid(std::f64::consts::TAU);
+                if !(db.min(std::f64::consts::TAU - db) * p[3].min(a) < 1e-3) {
+                    return format!("oracle FAIL {}: forward azimuth of the return line {} is not the return azimuth {} turned half round", fields[1], back[0], inv[1]);
+                }
+                if !((e.distance(&from, &to) - inv[2]).abs() < 1e-9) {
+                    return format!("oracle FAIL {}: distance() and geodesic_inv disagree", fields[1]);
+                }
+            }
+        }
+        "great" => {
+            for p in parse_data(fields[2]) {
+                let from = Coor4D([p[0], p[1], 0., 0.]);
+                let to = Coor4D([p[2], p[3], 0., 0.]);
+                let d = e.geodesic_inv(&from, &to)[2];
+                let c = (p[1].sin() * p[3].sin() + p[1].cos() * p[3].cos() * (p[2] - p[0]).cos()).clamp(-1.0, 1.0).acos();
+                if !((d - a * c).abs() < 1e-8 * a) {
+                    return format!("oracle FAIL {}: geodesic {d}, great circle {}", fields[1], a * c);
+                }
+            }
+        }
+        _ => {
+            // special lines: across the antimeridian (against the shifted pair), meridians, equator
+            for p in parse_data(fields[2]) {
+                let from = Coor4D([p[0], p[1], 0., 0.]);
+                let to = Coor4D([p[2], p[3], 0., 0.]);
+                let inv = e.geodesic_inv(&from, &to);
+                if inv[2].is_nan() || inv[3] > 990.0 {
+                    return format!("oracle FAIL {}: no solution for the line ({}, {}) - ({}, {})", fields[1], p[0], p[1], p[2], p[3]);
+                }
+                // rotating both end points about the axis changes nothing
+                let s = 0.7;
+                let inv2 = e.geodesic_inv(&Coor4D([angular::normalize_symmetric(p[0] + s), p[1], 0., 0.]), &Coor4D([angular::normalize_symmetric(p[2] + s), p[3], 0., 0.]));
+                if !((inv[2] - inv2[2]).abs() < 1e-4) {
+                    return format!("oracle FAIL {}: line ({}, {}) - ({}, {}) is {} m long, {} m after turning both end points by {s} rad of longitude", fields[1], p[0], p[1], p[2], p[3], inv[2], inv2[2]);
+                }
+                if p[0] == p[2] {
+                    let m = (e.meridian_latitude_to_distance(p[3]) - e.meridian_latitude_to_distance(p[1])).abs();
+                    if !((inv[2] - m).abs() < 1e-3) {
+                        return format!("oracle FAIL {}: along the meridian the geodesic is {} m, the meridian arc {}", fields[1], inv[2], m);
+                    }
+                }
+                if p[1] == 0.0 && p[3] == 0.0 {
+                    let mut dl = (p[2] - p[0]).abs();
+                    if dl > std::f64::consts::PI {
+                        dl = std::f64::consts::TAU - dl;
+                    }
+                    if !((inv[2] - a * dl).abs() < 1e-4) {
+                        return format!("oracle FAIL {}: along the equator the geodesic is {} m, the equatorial arc {}", fields[1], inv[2], a * dl);
                     }
                 }
             }
